@@ -61,18 +61,18 @@ Section C20.
       = Ok r -> False.
   Proof. exact (missing_meta_rejected deqb H meta0 enc_meta dec_meta print_sums parse_sums deqb_spec H_inj enc_nonempty parse_print). Qed.
 
-  (* "lacks a member": for state.bin this holds only for a non-empty state ... *)
-  Theorem C20_missing_state_partial : forall ord m s t r,
-    s <> [] ->
+  (* "lacks a member": state.bin too, whatever the state (the empty state included: all its hashes
+     match, and it is refused because the member never appeared -- the defect recorded as fixed in
+     known_findings.json) *)
+  Theorem C20_missing_state_rejected : forall ord m s t r,
     read [Member n_meta (enc_meta m) true; Member n_sums (print_sums (sums_lines H enc_meta ord m s)) true] t
       = Ok r -> False.
-  Proof. exact (missing_state_partial deqb H meta0 enc_meta dec_meta print_sums parse_sums deqb_spec H_inj parse_print). Qed.
+  Proof. exact (missing_state_rejected deqb H meta0 enc_meta dec_meta print_sums parse_sums deqb_spec). Qed.
 
-  (* ... and is refuted for the empty state (known finding C20-empty-state): *)
-  Theorem C20_missing_state_empty_refuted : forall ord m,
+  Theorem C20_missing_state_empty_refused : forall ord m,
     read [Member n_meta (enc_meta m) true; Member n_sums (print_sums (sums_lines H enc_meta ord m [])) true] true
-      = Ok (m, []).
-  Proof. exact (missing_state_empty_accepted deqb H meta0 enc_meta dec_meta print_sums parse_sums deqb_spec dec_enc parse_print). Qed.
+      = Err ENotInArchive.
+  Proof. exact (missing_state_empty_refused deqb H meta0 enc_meta dec_meta print_sums parse_sums deqb_spec dec_enc parse_print). Qed.
 
   Theorem C20_verify_before_restore : forall hdr L t tr r,
     restore deqb H meta0 dec_meta parse_sums hdr L t tr = Some r ->
@@ -94,7 +94,7 @@ Print Assumptions C20_cut_short_rejected.
 Print Assumptions C20_damaged_member_rejected.
 Print Assumptions C20_missing_sums_rejected.
 Print Assumptions C20_missing_meta_rejected.
-Print Assumptions C20_missing_state_partial.
-Print Assumptions C20_missing_state_empty_refuted.
+Print Assumptions C20_missing_state_rejected.
+Print Assumptions C20_missing_state_empty_refused.
 Print Assumptions C20_verify_before_restore.
 Print Assumptions C20_hypotheses_satisfiable.
